@@ -23,6 +23,7 @@ import (
 	"strconv"
 	"strings"
 	"sync"
+	"time"
 	"unsafe"
 
 	"github.com/Ptt-official-app/go-pttbbs/cache"
@@ -45,6 +46,7 @@ var (
 	moneyOff = int(unsafe.Offsetof(ptttype.USEREC_RAW.Money))
 	moneySz  = int(unsafe.Sizeof(ptttype.USEREC_RAW.Money))
 	levelOff = int(unsafe.Offsetof(ptttype.USEREC_RAW.UserLevel))
+	llOff    = int(unsafe.Offsetof(ptttype.USEREC_RAW.LastLogin))
 	idOff    = int(unsafe.Offsetof(ptttype.USEREC_RAW.UserID))
 	idSz     = int(unsafe.Sizeof(ptttype.USEREC_RAW.UserID))
 
@@ -768,6 +770,7 @@ func doReset(ws []string) (string, string) {
 	ptttype.USE_COOLDOWN = true
 	P = oracle{have: true, judged: n == nSlot && tail == 0}
 	stale = map[int64]*ptttype.UserecRaw{}
+	aged = map[int64]ageInfo{}
 	if P.judged {
 		synced := true
 		for s := 1; s <= nSlot; s++ {
@@ -817,6 +820,12 @@ func exec(line string) (out, label string, res *result) {
 		return "ok", "config:cooldown=" + ws[1], nil
 	case ws[0] == "loaduhash" && len(ws) == 2:
 		o, l := doLoadUHash(ws)
+		return o, l, nil
+	case ws[0] == "age" && (len(ws) == 4 || len(ws) == 5):
+		o, l := doAge(ws)
+		return o, l, nil
+	case ws[0] == "expire" && (len(ws) == 3 || len(ws) == 6):
+		o, l := doExpire(ws)
 		return o, l, nil
 	case ws[0] == "pokerec" && len(ws) == 4:
 		o, l := doPokeRec(ws)
@@ -1060,6 +1069,178 @@ func doPokeRec(ws []string) (string, string) {
 	}
 	P.snapshot()
 	return "ok " + observe2(u), "pokerec"
+}
+
+// accounts the history aged: slot -> (days since the last login, UserLevel)
+type ageInfo struct {
+	days int64
+	perm uint32
+}
+
+var aged = map[int64]ageInfo{}
+
+// doAge: `age u days perm [lastlogin]`: an edit of .PASSWDS by somebody else: LastLogin = now - days, UserLevel = perm.
+func doAge(ws []string) (string, string) {
+	u, ok1 := parseI32(ws[1])
+	days, ok2 := parseNat(ws[2], 5)
+	perm, ok3 := parseNat(ws[3], 10)
+	ll := int64(types.NowTS()) - int64(days)*86400
+	ok4 := true
+	if len(ws) == 5 {
+		ll, ok4 = parseI32(ws[4])
+	}
+	f, fok := readFile()
+	if !P.have || !ok1 || !ok2 || !ok3 || !ok4 || perm > math.MaxUint32 || !fok || !inArr(u) || recSize*int(u) > len(f) || ll < minI || ll > maxI {
+		return "bad-op", "bad-op"
+	}
+	base := recSize * int(u-1)
+	binary.LittleEndian.PutUint32(f[base+llOff:], uint32(int32(ll)))
+	binary.LittleEndian.PutUint32(f[base+levelOff:], uint32(perm))
+	if err := os.WriteFile(ptttype.FN_PASSWD, f, 0o600); err != nil {
+		panic(err)
+	}
+	aged[u] = ageInfo{int64(days), uint32(perm)}
+	canonLine = fmt.Sprintf("age %d %d %d %d", u, days, perm, ll)
+	P.snapshot()
+	return "ok " + observe2(u), "age"
+}
+
+func killedShape(rec []byte) bool {
+	for k, b := range rec {
+		if (k < moneyOff || k >= moneyOff+4) && b != 0 {
+			return false
+		}
+	}
+	return true
+}
+
+// doExpire: `expire id startMoney [killed slot hex]`: ptt.SetupNewUser with a stale .fresh marker, so that a table
+// without a free slot runs the clean-up sweep (tryCleanUser -> checkAndExpireAccount -> killUser).  Which accounts
+// were removed is observed (their record became empty); the oracle judges EVERY slot afterwards: SHM money untouched
+// and equal to the record's Money (a removed account's balance included), a record either unchanged or cleared.
+func doExpire(ws []string) (string, string) {
+	m, okm := parseI32(ws[2])
+	ok := okm && reIdent.MatchString(ws[1])
+	if len(ws) == 6 {
+		kl, okk := parseCsv(ws[3])
+		sl, oks := parseI32(ws[4])
+		var hexOK bool
+		func() {
+			defer func() { _ = recover() }()
+			hexOK = ws[5] != "-" && len(hx.UnHex(ws[5])) == recSize
+		}()
+		ok = ok && okk && oks && sl >= 0 && hexOK
+		for _, k := range kl {
+			ok = ok && k >= 2 && k <= MAX
+		}
+	}
+	before, fok := readFile()
+	if !ok || !P.have || !fok || len(before) != recSize*nSlot {
+		return "bad-op", "bad-op"
+	}
+	id := ws[1]
+	line := "expire " + id + " " + ws[2]
+	rec := newUserRec(id, m)
+	lastSent = encode(rec)
+	old := time.Now().Add(-2 * time.Hour)
+	_ = os.Chtimes(ptttype.FN_FRESH, old, old)
+	had, _ := cache.SearchUserRaw(idOf(id), nil)
+	shmBefore := shmNow()
+	var err error
+	o := hx.CallSync(func() string { err = ptt.SetupNewUser(rec); return "" })
+	_ = os.WriteFile(ptttype.FN_FRESH, []byte("fresh"), 0o644)
+	after, _ := readFile()
+	now := shmNow()
+	got, _ := cache.SearchUserRaw(idOf(id), nil)
+	slot := int64(got)
+	if had != 0 || (err != nil && got == 0) || (o == "PANIC" && got == 0) {
+		slot = 0
+	}
+	var killed []int64
+	if len(after) == len(before) {
+		for u := int64(1); u <= MAX; u++ {
+			b, a := before[recSize*int(u-1):recSize*int(u)], after[recSize*int(u-1):recSize*int(u)]
+			if u != slot && !bytes.Equal(a, b) && killedShape(a) {
+				killed = append(killed, u)
+			}
+		}
+	}
+	canonLine = fmt.Sprintf("expire %s %d %s %d %s", id, m, csv(killed), slot, hx.Hex(lastSent))
+	// ---- oracle ----
+	if P.judged {
+		isKilled := map[int64]bool{}
+		for _, k := range killed {
+			isKilled[k] = true
+		}
+		fails := map[string]bool{}
+		fail := func(key, what string) {
+			if !fails[key] {
+				fails[key] = true
+				pendingFails = append(pendingFails, pending{key, line + ": " + what})
+			}
+		}
+		if o == "PANIC" {
+			fail("crash:valid-slot", "panic: "+hx.LastPanic)
+		}
+		if len(after) != len(before) {
+			fail("frame", fmt.Sprintf(".PASSWDS length changed from %d to %d", len(before), len(after)))
+		} else {
+			for u := int64(1); u <= MAX; u++ {
+				b, a := before[recSize*int(u-1):recSize*int(u)], after[recSize*int(u-1):recSize*int(u)]
+				d, _ := diskMoney(after, u)
+				if u == slot {
+					if int64(now[u-1]) != m || d != m {
+						fail("register:inherited-balance", fmt.Sprintf("the new account at slot %d starts with %d: Shm.Money=%d, .PASSWDS money=%d", u, m, now[u-1], d))
+					}
+					P.bal[u] = m
+					continue
+				}
+				if now[u-1] != shmBefore[u-1] {
+					fail("frame:shm", fmt.Sprintf("slot %d: Shm.Money changed from %d to %d (no money operation was made)", u, shmBefore[u-1], now[u-1]))
+				}
+				switch {
+				case isKilled[u]:
+					if d != int64(now[u-1]) {
+						fail("mismatch:shm-disk", fmt.Sprintf("slot %d (account removed by the clean-up): Shm.Money=%d but .PASSWDS money=%d; plain arithmetic says %d", u, now[u-1], d, P.bal[u]))
+					}
+				case !bytes.Equal(a, b):
+					fail("frame", fmt.Sprintf("record %d changed although its account was not removed", u))
+				}
+				if ai, ok := aged[u]; ok {
+					exempt := ai.perm&uint32(ptttype.PERM_XEMPT) != 0 || u == 1 || ai.days <= 10
+					full := true // no slot without a user id in the SHM hash: the registration had to run the clean-up
+					for w := 1; w <= nSlot; w++ {
+						full = full && names[w] != ""
+					}
+					if ai.days >= 400 && !exempt && !isKilled[u] && slot == 0 && full && b[idOff] != 0 && !killedShape(b) {
+						fail("expiry-not-run", fmt.Sprintf("slot %d (last login %d days ago, level %#x) was not removed: the clean-up did not run", u, ai.days, ai.perm))
+					}
+					if exempt && isKilled[u] {
+						fail("expiry-killed-exempt", fmt.Sprintf("slot %d (last login %d days ago, level %#x) must not expire but was removed", u, ai.days, ai.perm))
+					}
+				}
+			}
+		}
+	}
+	if slot != 0 {
+		names[slot] = id
+		namesDirty = true
+	}
+	for u := 1; u <= nSlot; u++ {
+		if int64(u) != slot {
+			P.bal[u] = int64(now[u-1])
+		}
+	}
+	P.snapshot()
+	cls := "rejected"
+	if slot != 0 {
+		cls = errClass(err)
+	}
+	if o == "PANIC" {
+		cls = "PANIC"
+	}
+	filed := fmt.Sprintf("len=%d rest=%s", len(after), fnv(after))
+	return fmt.Sprintf("%s killed=%d shmd=%s %s", cls, len(killed), shmDigest(now), filed), fmt.Sprintf("expire:killed=%d", len(killed))
 }
 
 // newUserRec: the registration record (deterministic: no wall-clock fields).
@@ -1564,7 +1745,7 @@ func do(line string) {
 			label += ":" + res.errc
 		}
 	}
-	if got := run.Op(line, out, label, res != nil || strings.HasPrefix(label, "conc") || strings.HasPrefix(label, "loaduhash")); got != i {
+	if got := run.Op(line, out, label, res != nil || strings.HasPrefix(label, "conc") || strings.HasPrefix(label, "loaduhash") || strings.HasPrefix(label, "expire")); got != i {
 		panic("c20: op index out of step")
 	}
 	opCount++
@@ -1588,6 +1769,7 @@ func main() {
 		"whole-record writes: `permupdate u staleMoney perm` = ptt.SetUserPerm with the record kept at the last `load u` (a zero record otherwise) whose Money is set to staleMoney first, after credits/debits/sets, on all slot classes; `syncquery`/`load` = ptt.GetUser; " +
 		"registrations: `reset ... free=<slots>` leaves those slots without a user id (their SHM/disk money poked to 0, a leftover balance, or only one of the two), `newuser id startMoney` = ptt.SetupNewUser, the slot it got is observed in the SHM user hash and written into the op line together with the record; " +
 		"loader: `config 0|1` sets ptttype.USE_COOLDOWN for the history, `loaduhash 0` = Shm.Reset()+cache.LoadUHash() (fresh start), `loaduhash 1` = cache.LoadUHash() on the live segment (on-the-fly), `pokerec u id money` = an external edit of a record (owner change / money only / vacated); fresh starts on tables with balances, reloads after owner changes, followed by credits, debits, whole-record writes and registrations, under both configuration values; " +
+		"account expiry: `age u days perm` edits LastLogin/UserLevel of a record, `expire id m` = ptt.SetupNewUser with a stale .fresh (on a full table this runs tryCleanUser -> checkAndExpireAccount -> killUser); credited accounts that expire (unregistered, registered, last slot, balance 0), accounts inside the grace range, exempt accounts, slot 1, a table with a free slot (no clean-up), then reads, a credit and a restart; every slot is judged after the sweep; " +
 		"malformed stream: missing/short/long/torn .PASSWDS (recorded, not judged), ill-formed op lines. nontrivial = set/de/get that reached the real function; overflow and MoneyOf(invalid) cases are recorded and compared with the model, not judged"
 	if run.Replay != "" {
 		for _, l := range hx.ReplayOps(run.Replay) {
